@@ -13,10 +13,22 @@ TARGETS = [
     ('bounded', 'bounds.Range.__add__'), ('bounded', 'edits.AbstractEdit.bounds'),
     ('bounded', 'graphtage.KeyValuePairEdit.bounds'), ('bounded', 'graphtage.KeyValuePairEdit.edits'),
     ('editdistance', 'levenshtein.EditDistance._best_match'),
+    # the size lemma (size(x) >= 0, immutable) that every constant cost rests on: one induction step per node class
+    ('sizes', 'sequences.SequenceNode.calculate_total_size'), ('sizes', 'graphtage.LeafNode.calculate_total_size'),
+    ('sizes', 'graphtage.KeyValuePairNode.calculate_total_size'), ('sizes', 'graphtage.NullNode.calculate_total_size'),
+    ('sizes', 'xml.XMLElement.calculate_total_size'), ('sizes', 'plist.PLISTNode.calculate_total_size'),
+    ('sizes', 'pydiff.PyObj.calculate_total_size'), ('sizes_memo', 'tree.TreeNode.total_size'),
 ]
-TRUSTED = ['protocol B for sub-edits', 'structural induction over the edit tree (paper step)']
+TRUSTED = ['protocol B for sub-edits', 'structural induction over the edit tree (paper step)',
+           'size lemma: structural induction over the document tree composes the per-class steps (paper step); '
+           'MultiSetNode/DictNode/FixedKeyDictNode/DataClassNode.calculate_total_size not under contract (bounded); len(str(x)) >= 0; '
+           'prefix-sum induction schema (sum of terms >= c over m elements is >= c*m)']
 ASSUMPTIONS = ['numpy cost cells are mathematical integers']
 EXPLANATION = (
+    "Deductive (size lemma): calculate_total_size of LeafNode, NullNode, KeyValuePairNode, ListNode (SequenceNode), XMLElement, "
+    "PLISTNode and PyObj returns the size formula of its class and a non-negative value given non-negative child sizes, and "
+    "TreeNode.total_size returns the memo once set (immutable) and otherwise stores what calculate_total_size answers - the "
+    "facts behind every constant cost size+1 / max(size, size)+1.  "
     "Deductive: FixedLengthSequenceEdit.bounds returns, for every length, exactly the sum of the ranges of the sub-edits "
     "that FixedLengthSequenceEdit.edits lists (positional pairs, one Remove per surplus source element, one Insert per "
     "surplus target element; prefix-sum functions defined by recursion, loop invariant over the listing index); "
@@ -40,6 +52,8 @@ def witnesses(func_result, ob, repo_root, tier):
     elif 'XMLElementEdit' in fn:
         xs = gt.xml_specs()[:12]
         jobs = [('xml', a, b, gt.OPTION_COMBOS[0]) for a in xs for b in xs]
+    elif 'total_size' in fn:
+        jobs = _size_jobs()
     out, seen = [], set()
     for j in jobs:
         for f in _check(j):
@@ -59,9 +73,75 @@ def replay(entry, repo_root):
     return None
 
 
+def _size_jobs():
+    docs = [[], [1], [1, "ab", None], {"a": 1}, {"a": [1, 2], "bb": {"c": None}}, [[1, 2], [[], "xyz"], True, 2.5], "", None, 0,
+            [1, 1, 1], {"": ""}]
+    jobs = [('size', d, k, o) for d in docs for k in ('json', 'multiset') for o in (gt.OPTION_COMBOS[0], gt.OPTION_COMBOS[-1])]
+    jobs += [('size', x, 'xml', gt.OPTION_COMBOS[0]) for x in gt.xml_specs()[:14]]
+    jobs += [('size', d, 'plist', gt.OPTION_COMBOS[0]) for d in docs[:6]]
+    return jobs
+
+
+def _size_check(job):
+    """The contracts of contracts.sizes evaluated on the real code: every node's calculate_total_size() equals the formula of
+    its class over its children's total_size, is non-negative, and total_size is that value and stays it."""
+    import graphtage
+    from graphtage import xml as gxml
+    from graphtage.sequences import SequenceNode
+    _, doc, kind, opt = job
+    fails = []
+    try:
+        if kind == 'xml':
+            root = gt.build_xml(doc, opt)
+        elif kind == 'multiset':
+            root = gt.build_multiset(doc if isinstance(doc, list) else [doc], opt)
+        elif kind == 'plist':
+            from graphtage.plist import PLISTNode
+            root = PLISTNode(gt.build(doc, opt))
+        else:
+            root = gt.build(doc, opt)
+        nodes = [root] + list(root.dfs()) if root not in list(root.dfs())[:1] else list(root.dfs())
+        for n in nodes:
+            cn = type(n).__name__
+            got = n.calculate_total_size()
+            exp = None
+            if isinstance(n, graphtage.KeyValuePairNode):
+                exp = n.key.total_size + n.value.total_size + 2
+            elif isinstance(n, gxml.XMLElement):
+                exp = (0 if n.text is None else n.text.total_size) + n.tag.total_size + n.attrib.total_size + n._children.total_size
+            elif isinstance(n, graphtage.MultiSetNode):
+                exp = sum((c.total_size + 1) * k for c, k in n._children.items())
+            elif isinstance(n, SequenceNode):
+                exp = sum(c.total_size + 1 for c in n)
+            elif cn == 'PLISTNode':
+                exp = n.root.calculate_total_size()
+            elif isinstance(n, graphtage.LeafNode):
+                exp = 0 if cn == 'NullNode' else len(str(n.object))
+            ts1 = n.total_size
+            ts2 = n.total_size
+            if got < 0 or ts1 < 0:
+                fails.append({'what': f"size of a {cn} is negative: calculate_total_size() == {got}, total_size == {ts1}",
+                              'class': f'c03-size-negative:{cn}'})
+            elif exp is not None and got != exp:
+                fails.append({'what': f"{cn}.calculate_total_size() == {got}, the size formula of its class over its children gives {exp}",
+                              'class': f'c03-size-formula:{cn}'})
+            elif ts1 != got or ts2 != ts1 or n.calculate_total_size() != got:
+                fails.append({'what': f"{cn}.total_size == {ts1} then {ts2}, calculate_total_size() == {got}: the size is not one "
+                                      f"immutable value", 'class': f'c03-size-memo:{cn}'})
+    except Exception as ex:
+        fails.append({'what': f"{type(ex).__name__}: {ex}", 'class': f'c03-exception:{type(ex).__name__}'})
+    for f in fails[:1]:
+        f['what'] = f"{f['what']} [{kind}: {doc!r}, opt={opt}]"
+        f['input'] = {'fmt': 'size', 'a': doc, 'b': kind, 'opt': opt}
+        f['replay'] = {'kind': 'doc', 'fmt': 'size', 'a': doc, 'b': kind, 'opt': opt}
+    return fails[:1]
+
+
 def _check(job):
     import props.C01 as C01
     fmt, a, b, opt = job
+    if fmt == 'size':
+        return _size_check(job)
     fails = []
     spec = None
     if fmt == 'biglist':
@@ -171,6 +251,7 @@ def bounded(tier, seed, repo_root):
     for sa, sb in big:
         for o in (gt.OPTION_COMBOS[0], gt.OPTION_COMBOS[3]):      # (list edits on: positional pairing of unrelated long strings takes minutes)
             jobs.append(('biglist', sa, sb, o))
+    jobs += _size_jobs()      # (MultiSetNode / FixedKeyDictNode.calculate_total_size are not under contract: bounded here)
     res = pmap(_check, jobs, repo_root, job_timeout=60, on_timeout=timeout_failure('C03'))
     fails = [f for fs in res for f in fs if f['class'].startswith('c03-')]
     return [{
